@@ -201,10 +201,11 @@ type fixture struct {
 	r0    []string
 	r0set map[string]bool
 	kinds map[string]string
+	memo  map[string]*reference
 }
 
 func build(s ARSpec) *fixture {
-	fx := &fixture{spec: s, trees: map[string][]byte{}}
+	fx := &fixture{spec: s, trees: map[string][]byte{}, memo: map[string]*reference{}}
 	ar := &remoteexecution.ActionResult{ExitCode: 3}
 	for i := 0; i < s.Files; i++ {
 		pos := fmt.Sprintf("of%d", i)
